@@ -189,7 +189,36 @@ class GTransport:
         self._send(payload)
 
     def get_extra_info(self, name, default=None):
+        if name == "socket" and self.kind == "tcp":
+            return GSocket()
         return default
+
+    def _pyvc_truth(self, ex):
+        return True
+
+
+class GSocket:
+    """the socket behind a TCP transport: setsockopt / ioctl either succeed or raise OSError (e.g. an option the
+    platform does not know); one choice per socket, at the first call"""
+    _pyvc_model = True
+
+    def __init__(self):
+        self.fails = None
+
+    def _call(self):
+        from . import interp
+        ex = interp.current()
+        if self.fails is None:
+            self.fails = ex.choose(2, tag="setsockopt.fails") == 1
+            if self.fails:
+                pg(ex).connect_failed = True        # this attempt ends before anything is transmitted
+                raise PyRaise(OSError("setsockopt failed"))
+
+    def setsockopt(self, *a):
+        self._call()
+
+    def ioctl(self, *a):
+        self._call()
 
     def _pyvc_truth(self, ex):
         return True
@@ -416,4 +445,10 @@ def maybe_model(ex, fn, args, kw):
         return GWaitFor(args[0], timeout)
     if fn is asyncio.sleep:
         raise Unsupported("asyncio.sleep")
+    mod = getattr(fn, "__module__", None) or ""
+    if (mod == "asyncio" or mod.startswith("asyncio.")) and callable(fn) and not (
+            isinstance(fn, type) and issubclass(fn, BaseException)):
+        # running the real asyncio function here (without an event loop) would produce behaviour that is neither the
+        # code's nor the environment's: the unit is undecided instead
+        raise Unsupported(f"asyncio.{getattr(fn, '__name__', fn)} is not modelled (T4)")
     return NOT_MODELLED
